@@ -4,7 +4,7 @@ from __future__ import annotations
 import ast
 from fractions import Fraction
 
-from ..astu import U, S, has, walk_shallow, call_name, calls_in, kwarg, linform, lin_str, fold, NotLiteral, names_in
+from ..astu import U, S, has, same, walk_shallow, call_name, calls_in, kwarg, linform, lin_str, fold, NotLiteral, names_in
 from ..cfg import build, find_guards
 from ..core import AnalysisError, Mutant, Rule, Twin
 from ..dims import (V, TOP, Interp, num, opaque, mk_dim, dim_str, dim_mul, dim_pow, lx, lx_const, units_ns, constants_ns, Namespace, pq_const, join)
@@ -333,7 +333,22 @@ def r4_dedimensionalisation(ctx):
     ctx.check(has(fn, "instance = self.__class__(unitless_args, self.unique_keys)"), a, "same-class-and-keys", "the new instance must keep class and unique keys", node=fn)
     ctx.check(has(fn, "unitless_in_registry(arg, unit_registry) for arg in self.argument_defaults"), a, "defaults-same-registry", "argument defaults must be converted with the same registry", node=fn)
     ret = [n for n in walk_shallow(fn) if isinstance(n, ast.Return)][-1]
-    ctx.check(S(ret.value) == "new_units,instance", a, "returns-units-and-instance", "returns %s" % U(ret.value), node=ret)
+    ctx.check(same(ret.value, "new_units, instance", scope=fn), a, "returns-units-and-instance", "returns %s" % U(ret.value), node=ret)
+
+
+def r5_unique_units(ctx):
+    """units of late-bound (unique-key) rate constants: the full registry product, magnitude included"""
+    fn = ctx.func(ODE, "get_odesys._reg_unique_unit")
+    a = ODE + ":get_odesys._reg_unique_unit"
+    st = [n for n in walk_shallow(fn) if isinstance(n, ast.Assign) and isinstance(n.targets[0], ast.Subscript) and U(n.targets[0].value) == "unique_units"]
+    ok = len(st) == 1 and same(st[0].value, "reduce(mul, [1] + [unit_registry[dim] ** v for dim, v in arg_dim[idx].items()])", scope=fn)
+    ctx.check(ok, a, "unit=registry-product", "the unit of a unique-key parameter must be exactly the product of unit_registry[dim] ** exponent (a registry entry such as 60*second carries a magnitude; "
+              "wrapping the product, e.g. in unit_of(), drops it while time and concentration are still scaled by the registry); found %s" % (U(st[0].value) if st else None), node=st[0] if st else fn)
+    ctx.check(len(st) == 1 and U(st[0].targets[0].slice) == fn.args.args[0].arg, a, "keyed-by-unique-key", "the unit must be stored under the unique key", node=fn)
+    g = ctx.func(ODE, "get_odesys")
+    ctx.check(has(g, "[unique_units[k] for k in unique]"), ODE + ":get_odesys", "p_units-from-unique_units", "p_units must take the unique-key units in the order of `unique`", node=g)
+    ctx.check(has(g, "[to_unitless(px, p_unit) for px, p_unit in zip(p.T if hasattr(p, 'T') else p, p_units)]") and has(g, "[elem * p_unit for elem, p_unit in zip(p.T, p_units)]"), ODE + ":get_odesys", "same-p_units-pre-and-post",
+              "parameters must be stripped and re-attached with the same p_units", node=g)
 
 
 RULES = [
@@ -341,6 +356,7 @@ RULES = [
     Rule("C10-R2", r2_acceptance_dimension, 10, "acceptance-test dimension and propagation"),
     Rule("C10-R3", r3_pre_post_pairing, 19, "pre/post unit pairing in get_odesys and the alternative builder"),
     Rule("C10-R4", r4_dedimensionalisation, 8, "dedimensionalisation pairing"),
+    Rule("C10-R5", r5_unique_units, 4, "unique-key parameter units are the full registry product"),
 ]
 
 MUTANTS = [
@@ -362,6 +378,8 @@ MUTANTS = [
 ]
 
 MUTANTS.append(Mutant("eyring-prefactor-carries-concentration", [(RATES, '            {"time": -1, "temperature": -1},\n            {"temperature": 1},\n            concentration,', '            {"time": -1, "temperature": -1, "amount": -1, "length": 3},\n            {"temperature": 1},\n            concentration,')], "C10-R1", "Eyring"))
+
+MUTANTS.append(Mutant("unique-unit-loses-magnitude", [(ODE, "        unique_units[k] = reduce(\n            mul, [1] + [unit_registry[dim] ** v for dim, v in arg_dim[idx].items()]\n        )", "        unique_units[k] = unit_of(reduce(\n            mul, [1] + [unit_registry[dim] ** v for dim, v in arg_dim[idx].items()]\n        ))")], "C10-R5", "registry-product"))
 
 TWINS = [
     Twin("massaction-length-rewritten", [(RATES, '    def args_dimensionality(self, reaction):\n        order = reaction.order()\n        return ({"time": -1, "amount": 1 - order, "length": 3 * (order - 1)},)', '    def args_dimensionality(self, reaction):\n        order = reaction.order()\n        return ({"time": -1, "amount": 1 - order, "length": 3 * order - 3},)')]),
